@@ -1,6 +1,6 @@
 (** Property C19 — the theorems the check counts as obligations.  Nothing but
     statements closed by [exact] and [Print Assumptions]. *)
-From HS Require Import Base.Prelude C19.Model C19.MQ C19.MQOrder C19.TopicModel C19.Topic.
+From HS Require Import Base.Prelude C19.Model C19.MQ C19.MQOrder C19.TopicModel C19.Topic C19.StreamModel C19.Assign C19.Stream.
 From Coq Require Import Sorting.Sorted.
 Local Open Scope Z_scope.
 
@@ -124,3 +124,51 @@ Theorem c19_topic_publish_sync : forall mx ops mid now,
   NoDup (actives (t_subs s)).
 Proof. exact topic_publish_sync. Qed.
 Print Assumptions c19_topic_publish_sync.
+
+(** Event log: offsets within a partition are gap-free and increasing
+    (no / size / time retention; clock readings non-decreasing, satisfiable:
+    Stream.mono_example). *)
+Theorem c19_log_offsets_gap_free : forall cfg n ops t0 i p,
+  (0 < n)%nat -> mono_from t0 ops ->
+  nth_error (l_parts (fst (srun cfg n ops))) i = Some p ->
+  map r_off (p_recs p) = zseq (p_hw p - zlen (p_recs p)) (length (p_recs p)) /\ 0 <= p_hw p - zlen (p_recs p).
+Proof. exact log_offsets_gap_free. Qed.
+Print Assumptions c19_log_offsets_gap_free.
+
+(** Event log: a key always maps to the same partition (any digest function). *)
+Theorem c19_log_key_partition_stable : forall cfg n ops i p r,
+  (0 < n)%nat ->
+  nth_error (l_parts (fst (srun cfg n ops))) i = Some p -> In r (p_recs p) ->
+  r_part r = Z.of_nat i /\ r_part r = s_digest cfg (r_key r) mod Z.of_nat n.
+Proof. exact log_key_partition_stable. Qed.
+Print Assumptions c19_log_key_partition_stable.
+
+Theorem c19_log_same_key_same_partition : forall cfg n ops i1 p1 r1 i2 p2 r2,
+  (0 < n)%nat ->
+  nth_error (l_parts (fst (srun cfg n ops))) i1 = Some p1 -> In r1 (p_recs p1) ->
+  nth_error (l_parts (fst (srun cfg n ops))) i2 = Some p2 -> In r2 (p_recs p2) ->
+  r_key r1 = r_key r2 -> i1 = i2.
+Proof. exact log_same_key_same_partition. Qed.
+Print Assumptions c19_log_same_key_same_partition.
+
+(** Consumer group: after every rebalance each partition belongs to exactly one
+    member (Range, RoundRobin, Sticky; all join/leave orders and histories). *)
+Theorem c19_group_rebalance_one_owner : forall cfg n ops o,
+  o = GLeaveEnd \/ (exists c, o = GJoinEnd c) ->
+  let g' := snd (fst (sstep cfg (srun cfg n ops) o)) in
+  g_cons g' <> [] -> owners_ok (Z.of_nat n) g'.
+Proof. exact group_rebalance_one_owner. Qed.
+Print Assumptions c19_group_rebalance_one_owner.
+
+(** Committed offsets never move backwards: REFUTED on the faithful model
+    (known finding C19-commit-moves-backwards), with the partial statement that
+    does hold. *)
+Theorem c19_group_committed_monotone_refuted : ~ committed_monotone_statement.
+Proof. exact group_committed_monotone_refuted. Qed.
+Print Assumptions c19_group_committed_monotone_refuted.
+
+Theorem c19_group_committed_monotone_partial : forall cfg st o c pid,
+  (forall offs, o = GCommit c offs -> forall v, In (pid, v) offs -> coff (snd st) c pid <= v) ->
+  coff (snd st) c pid <= coff (snd (fst (sstep cfg st o))) c pid.
+Proof. exact group_committed_monotone_partial. Qed.
+Print Assumptions c19_group_committed_monotone_partial.
